@@ -70,6 +70,7 @@ class Ctx:
 
     def viol(self, rid: str, key: str, site: str, message: str, **detail):
         if any(v.rule == rid and v.key == key for v in self.violations):
+            self.bad_instance(rid, site, key)    # same construct again: one report, but it is an instance
             return
         self.instances.setdefault(rid, []).append(dict(site=site, what=key, verdict="violation", message=message, **detail))
         self.obligations += 1
